@@ -726,6 +726,8 @@ def _rep(a, b):
 
 
 WITNESSES = [
+    ("effect entry guarded by the values instead of the row selection", "batchie.data",
+     _rep("            if not np.any(mask):\n                continue\n\n            single_effect = np.mean(", "            if not np.any(single_treatment_observations[mask]):\n                continue\n\n            single_effect = np.mean("), ["R3"]),
     ("single-agent effects memoised and never reset", "batchie.data",
      _rep("        try:\n            return create_single_treatment_effect_array(\n                sample_ids=self.sample_ids,",
           "        if getattr(self, \"_ste\", None) is not None:\n            return self._ste\n        try:\n            self._ste = create_single_treatment_effect_array(\n                sample_ids=self.sample_ids,\n                treatment_ids=self.treatment_ids,\n                observation=self.observations,\n            )\n            return self._ste\n        except KeyError:\n            return None\n        try:\n            return create_single_treatment_effect_array(\n                sample_ids=self.sample_ids,"), ["R10"]),
